@@ -66,6 +66,7 @@ Definition go_emit_u8 (v : Z) : list N := go_put_be 1 v.
 Definition go_emit_u16 (v : Z) : list N := go_put_be 2 v.
 Definition go_emit_u32 (v : Z) : list N := go_put_be 4 v.
 Definition go_emit_u64 (v : Z) : list N := go_put_be 8 v.
+Definition go_emit_bytes (s : list N) : list N := s.       (* WriteString(s) / Write(s) *)
 
 (* for k, v := range l { body }: left fold with early exit *)
 Fixpoint go_range_from {A S R} (i : Z) (l : list A) (f : Z -> A -> S -> ctl S R) (s : S) : ctl S R :=
